@@ -3,6 +3,7 @@ package main
 // net/http, net/url (UF level), gorilla-style schema codec, securecookie, oauth2 models.
 
 import (
+	"net/url"
 	"strings"
 	"go/types"
 
@@ -304,12 +305,18 @@ func init() {
 
 	// --- url escaping at the UF level (C11 runs the real net/url code instead)
 	reg("net/url.QueryUnescape", func(ex *Exec, fn *ssa.Function, a []Value) Value {
+		if ls, ok := termLitString(a[0].(*Term)); ok {
+			return ex.queryUnescape(StrLit(ls)) // fully concrete: the host library decides exactly
+		}
 		if ex.realBody("url.QueryUnescape") {
 			return ex.callBody(fn, a)
 		}
 		return ex.queryUnescape(a[0].(*Term))
 	})
 	reg("net/url.QueryEscape", func(ex *Exec, fn *ssa.Function, a []Value) Value {
+		if ls, ok := termLitString(a[0].(*Term)); ok {
+			return StrLit(urlQueryEscape(ls)) // fully concrete: the host library decides exactly
+		}
 		if ex.realBody("url.QueryEscape") {
 			return ex.callBody(fn, a)
 		}
@@ -320,6 +327,13 @@ func init() {
 		return UF("qesc", SSeq, s)
 	})
 	reg("net/url.PathUnescape", func(ex *Exec, fn *ssa.Function, a []Value) Value {
+		if ls, ok := termLitString(a[0].(*Term)); ok {
+			r, err := url.PathUnescape(ls)
+			if err != nil {
+				return Tuple{StrLit(""), errorIface(ex, "url.EscapeError")}
+			}
+			return Tuple{StrLit(r), Iface{}}
+		}
 		if ex.realBody("url.PathUnescape") {
 			return ex.callBody(fn, a)
 		}
@@ -654,4 +668,23 @@ func init() {
 		ex.schemaEncodeStruct(sv, t, dst)
 		return Iface{}
 	})
+}
+
+// termLitString: the Go string of a term all of whose bytes are concrete.
+func termLitString(t *Term) (string, bool) {
+	if t.IsLit() {
+		return t.S, true
+	}
+	bs, ok := seqBytes(t)
+	if !ok {
+		return "", false
+	}
+	out := make([]byte, len(bs))
+	for i, b := range bs {
+		if !b.IsLit() {
+			return "", false
+		}
+		out[i] = byte(b.I.Int64())
+	}
+	return string(out), true
 }
